@@ -195,7 +195,14 @@ struct Setup {
 
 fn setup(case: &Case) -> Setup {
     let (v0, f, watertight, convex) = build(&case.mesh);
-    let iso = gen::iso3_poses()[case.pose % 5];
+    // how the posed mesh object comes about rotates with the plane normal: built from posed vertices, built
+    // in its own frame and moved with `transform`, or built through the constructor with options
+    let ctor = case.normal % 3;
+    let mut iso = gen::iso3_poses()[case.pose % 5];
+    if ctor == 1 && case.pose == 2 {
+        // a turn about the origin without any translation
+        iso = Iso3::from_parts(Vector3::zeros().into(), iso.rotation);
+    }
     // plane defined in the mesh's own frame, then moved together with the mesh
     let n = UnitVec3::new_normalize(normals()[case.normal % normals().len()]);
     let ds: Vec<f64> = v0.iter().map(|p| n.dot(&p.coords)).collect();
@@ -211,7 +218,15 @@ fn setup(case: &Case) -> Setup {
     let local = Plane3::new(n, d);
     let plane = local.transform_by(&iso);
     let v: Vec<Point3> = v0.iter().map(|p| iso * p).collect();
-    let mesh = Mesh::new(v.clone(), f.clone(), watertight);
+    let mesh = match ctor {
+        1 => {
+            let mut m = Mesh::new(v0.clone(), f.clone(), watertight);
+            m.transform(&iso);
+            m
+        }
+        2 => Mesh::new_with_options(v.clone(), f.clone(), watertight, false, false, None).expect("mesh with options"),
+        _ => Mesh::new(v.clone(), f.clone(), watertight),
+    };
     let sd: Vec<f64> = v.iter().map(|p| plane.signed_distance_to_point(p)).collect();
     Setup { v, f, mesh, plane, sd, watertight, convex }
 }
